@@ -50,7 +50,29 @@ def truth(st, v):
     raise Unsupported(f"truth value of {v!r}")
 
 
-def coerce(st, v, kind):
+def materialize(st, comp, ctx):
+    """a mapping list-comprehension over a list as a list value: a fresh list R with
+    len(R) == len(base) and R[i] == elem(base[i]) (definition of the comprehension)"""
+    if not (isinstance(comp, VComp) and comp.over[0] == "seq" and comp.elem is not None and hasattr(comp.elem, "t")):
+        raise Unsupported("cannot materialise this comprehension")
+    if getattr(comp, "extra_pc", None):
+        raise Unsupported("comprehension element depends on a call contract")
+    base, ivar = comp.over[1], comp.over[2]
+    dom = z3.simplify(z3.substitute(comp.dom, (ivar, z3.IntVal(0))))
+    el = comp.elem
+    r = SeqOf(el.kind).fresh(ctx, "comp")
+    # filters would need a compaction; only pure maps are supported
+    i = z3.Int(ctx.fresh_name("mi"))
+    full = z3.And(0 <= ivar, ivar < base.n)
+    if not z3.simplify(comp.dom).eq(z3.simplify(full)) and not z3.simplify(comp.dom).eq(z3.simplify(z3.And(ivar >= 0, ivar < base.n))):
+        raise Unsupported("filtered comprehension used as a value")
+    st.assume(r.n == base.n)
+    st.assume(z3.ForAll([i], z3.Implies(z3.And(0 <= i, i < base.n), r.arr[i] == z3.substitute(el.t, (ivar, i))),
+                        patterns=[r.arr[i]]))
+    return r
+
+
+def coerce(st, v, kind, ctx=None):
     """adapt a value to a declared kind (polymorphic empties, None, int->float,
     cell -> content snapshot, list -> set of members)"""
     if kind is None:
@@ -73,6 +95,8 @@ def coerce(st, v, kind):
             return coerce(st, v.get(), kind)
         return v
     if isinstance(kind, SeqOf):
+        if isinstance(v, VComp) and ctx is not None:
+            return materialize(st, v, ctx)
         if isinstance(v, VEmptySeq):
             return v.to(kind.elem)
         if isinstance(v, VTuple):
